@@ -128,4 +128,71 @@ def mouseEnter : List Line := [
   ⟨0, .returnS, (.var "nil"), .none⟩]
 
 
+/-- `focusHandler.updatePath` -/
+def updatePath : List Line := [
+  ⟨0, .assign, (.var "r.lastFrame"), (.var "v1")⟩,
+  ⟨0, .ifS, (.un "!" (.call (.var "r.findPath"))), .none⟩,
+  ⟨1, .assign, (.var "_"), (.arg (.arg (.call (.var "r.focusWidget")) (.var "v0")) (.var "r.root"))⟩]
+
+/-- `mouseHandler.update` -/
+def mouseUpdate : List Line := [
+  ⟨0, .ifS, (.bin "==" (.var "r.mouse") (.var "nil")), .none⟩,
+  ⟨1, .returnS, (.var "nil"), .none⟩,
+  ⟨0, .define, (.var "v2"), (.lit "[]hitResult{}")⟩,
+  ⟨0, .define, (.var "v3"), (.arg (.arg (.arg (.call (.var "NewSubSurface")) (.int 0)) (.int 0)) (.var "v1"))⟩,
+  ⟨0, .ifS, (.arg (.arg (.call (.var "v3.containsPoint")) (.var "r.mouse.Col")) (.var "r.mouse.Row")), .none⟩,
+  ⟨1, .assign, (.var "v2"), (.arg (.arg (.arg (.arg (.call (.var "hitTest")) (.var "v1")) (.var "v2")) (.arg (.call (.var "uint16")) (.var "r.mouse.Col"))) (.arg (.call (.var "uint16")) (.var "r.mouse.Row")))⟩,
+  ⟨0, .rangeS, (.pair (.var "_") (.var "v4")), (.var "r.lastHits")⟩,
+  ⟨1, .rangeS, (.pair (.var "_") (.var "v5")), (.var "v2")⟩,
+  ⟨2, .ifS, (.bin "==" (.var "v4") (.var "v5")), .none⟩,
+  ⟨3, .continueS, (.var "outer_exit"), (.int 1)⟩,
+  ⟨1, .define, (.pair (.var "v6") (.var "v7")), (.arg (.arg (.call (.var "v4.w.HandleEvent")) (.lit "MouseLeave{}")) (.var "TargetPhase"))⟩,
+  ⟨1, .ifS, (.bin "!=" (.var "v7") (.var "nil")), .none⟩,
+  ⟨2, .returnS, (.var "v7"), .none⟩,
+  ⟨1, .exprS, (.arg (.call (.var "v0.handleCommand")) (.var "v6")), .none⟩,
+  ⟨0, .rangeS, (.pair (.var "_") (.var "v8")), (.var "v2")⟩,
+  ⟨1, .rangeS, (.pair (.var "_") (.var "v9")), (.var "r.lastHits")⟩,
+  ⟨2, .ifS, (.bin "==" (.var "v8") (.var "v9")), .none⟩,
+  ⟨3, .continueS, (.var "outer_enter"), (.int 1)⟩,
+  ⟨1, .define, (.pair (.var "v10") (.var "v11")), (.arg (.arg (.call (.var "v8.w.HandleEvent")) (.lit "MouseEnter{}")) (.var "TargetPhase"))⟩,
+  ⟨1, .ifS, (.bin "!=" (.var "v11") (.var "nil")), .none⟩,
+  ⟨2, .returnS, (.var "v11"), .none⟩,
+  ⟨1, .exprS, (.arg (.call (.var "v0.handleCommand")) (.var "v10")), .none⟩,
+  ⟨0, .assign, (.var "r.lastHits"), (.var "v2")⟩,
+  ⟨0, .returnS, (.var "nil"), .none⟩]
+
+/-- `App.handleCommand` -/
+def handleCommand : List Line := [
+  ⟨0, .typeSwitchS, (.lit "v1 := v0.(type)"), .none⟩,
+  ⟨1, .caseS, (.var "BatchCmd"), .none⟩,
+  ⟨2, .rangeS, (.pair (.var "_") (.var "v2")), (.var "v1")⟩,
+  ⟨3, .exprS, (.arg (.call (.var "r.handleCommand")) (.var "v2")), .none⟩,
+  ⟨1, .caseS, (.lit "[]Command"), .none⟩,
+  ⟨2, .rangeS, (.pair (.var "_") (.var "v3")), (.var "v1")⟩,
+  ⟨3, .exprS, (.arg (.call (.var "r.handleCommand")) (.var "v3")), .none⟩,
+  ⟨1, .caseS, (.var "RedrawCmd"), .none⟩,
+  ⟨2, .assign, (.var "r.redraw"), (.var "true")⟩,
+  ⟨1, .caseS, (.var "RefreshCmd"), .none⟩,
+  ⟨2, .assign, (.var "r.refresh"), (.var "true")⟩,
+  ⟨1, .caseS, (.var "QuitCmd"), .none⟩,
+  ⟨2, .assign, (.var "r.shouldQuit"), (.var "true")⟩,
+  ⟨1, .caseS, (.var "ConsumeEventCmd"), .none⟩,
+  ⟨2, .assign, (.var "r.consumeEvent"), (.var "true")⟩,
+  ⟨1, .caseS, (.var "FocusWidgetCmd"), .none⟩,
+  ⟨2, .define, (.var "v4"), (.arg (.arg (.call (.var "r.fh.focusWidget")) (.var "r")) (.var "v1"))⟩,
+  ⟨2, .ifS, (.bin "!=" (.var "v4") (.var "nil")), .none⟩,
+  ⟨3, .exprS, (.arg (.arg (.call (.var "log.Error")) (.lit "\"focusWidget error: %s\"")) (.var "v4")), .none⟩,
+  ⟨3, .returnS, .none, .none⟩,
+  ⟨1, .caseS, (.var "SetMouseShapeCmd"), .none⟩,
+  ⟨2, .exprS, (.arg (.call (.var "r.vx.SetMouseShape")) (.arg (.call (.var "vaxis.MouseShape")) (.var "v1"))), .none⟩,
+  ⟨1, .caseS, (.var "SetTitleCmd"), .none⟩,
+  ⟨2, .exprS, (.arg (.call (.var "r.vx.SetTitle")) (.arg (.call (.var "string")) (.var "v1"))), .none⟩,
+  ⟨1, .caseS, (.var "CopyToClipboardCmd"), .none⟩,
+  ⟨2, .exprS, (.arg (.call (.var "r.vx.ClipboardPush")) (.arg (.call (.var "string")) (.var "v1"))), .none⟩,
+  ⟨1, .caseS, (.var "SendNotificationCmd"), .none⟩,
+  ⟨2, .exprS, (.arg (.arg (.call (.var "r.vx.Notify")) (.var "v1.Title")) (.var "v1.Body")), .none⟩,
+  ⟨1, .caseS, (.var "DebugCmd"), .none⟩,
+  ⟨2, .assign, (.var "r.debug"), (.var "true")⟩,
+  ⟨2, .assign, (.var "r.redraw"), (.var "true")⟩]
+
 end VaxisModel.Lemmas.VxfwBodyExpected
